@@ -154,7 +154,10 @@ class Hand(twisted.internet.protocol.Protocol):
             log.warning('Worker and pipeline revisions are not the same.')
             self.transport.loseConnection()
         else:
-            _workers.append(self)
+            # a connection registers once: a repeated register message must
+            # not list the hand twice (it would be handed two tasks at once)
+            if self not in _workers:
+                _workers.append(self)
             self.__incarnation = msg.incarnation
             log.debug(
                 'Registered a worker for its %d incarnation.', msg.incarnation
